@@ -689,8 +689,10 @@ func (r *run) after(entry, kind string, in []byte, g geom.Geom, err error) {
 
 func (r *run) exec() {
 	t := r.t
-	kind := t.Choose(10, "item-kind")
+	kind := t.Choose(11, "item-kind")
 	switch {
+	case kind == 10:
+		r.skewedJSON()
 	case kind <= 3:
 		r.wkbItem(false)
 	case kind == 4:
@@ -1010,7 +1012,20 @@ func (r *run) hexItem() {
 		}
 	}
 	do("prefix", "0x"+s)
+	do("prefix", "\\x"+s)
+	do("prefix", "#"+s)
 	do("whitespace", s+"\n")
+	// every string of length <= 1, and every 2-char string starting with a
+	// character that a lenient decoder might treat as a prefix
+	do("short-string", "")
+	for c := 0; c < 256; c++ {
+		do("short-string", string([]byte{byte(c)}))
+	}
+	for _, p := range []byte{'\\', '0', 'x', 'X', '#', ' '} {
+		for c := 0; c < 256; c++ {
+			do("short-string", string([]byte{p, byte(c)}))
+		}
+	}
 	for i, off := range lay.count {
 		for _, v := range countValues {
 			b := clone(item)
@@ -1319,6 +1334,104 @@ func (r *run) adversarial() {
 	}
 }
 
+// hexString runs hex.Decode on an arbitrary string under the panic,
+// allocation and result-shape oracles.
+func (r *run) hexString(kind, in string) {
+	if r.res.Viol != nil || len(in) > 65536 {
+		return
+	}
+	r.note("hex:"+kind, true, uint64(core.NewHasher().Str("hexs").Str(in)))
+	var g geom.Geom
+	var err error
+	before := allocated()
+	p, v, st := core.Protect(func() { g, err = hex.Decode(in) })
+	used := allocated() - before
+	r.log.EventInts("hexs."+kind, int64(len(in)), b2i(err == nil))
+	if p {
+		r.fail("panic", "hex.Decode,"+kind, "hex.Decode panicked on %q: %v %s", trunc(in), v, core.TrimStack(st, 4))
+		return
+	}
+	if used > budget(len(in)) {
+		r.fail("alloc-unbounded", "hex.Decode,"+kind, "hex.Decode allocated %d bytes for a %d-char input %q", used, len(in), trunc(in))
+		return
+	}
+	r.after("hex.Decode", kind, []byte(in), g, err)
+}
+
+// skewedJSON builds syntactically valid GeoJSON documents close to the size
+// bound whose coordinates have skewed shapes (one long member and many empty
+// ones, long flat lists, deep singletons): shapes on which a decoder that
+// sizes buffers from a product or from the first member over-allocates.
+func (r *run) skewedJSON() {
+	t := r.t
+	r.log.Event("item skewed json documents")
+	num := func(k int) string {
+		b := make([]byte, 0, 2*k+2)
+		b = append(b, '[')
+		for i := 0; i < k; i++ {
+			if i > 0 {
+				b = append(b, ',')
+			}
+			b = append(b, '1')
+		}
+		return string(append(b, ']'))
+	}
+	rep := func(elem string, m int) string {
+		b := make([]byte, 0, (len(elem)+1)*m)
+		for i := 0; i < m; i++ {
+			if i > 0 {
+				b = append(b, ',')
+			}
+			b = append(b, elem...)
+		}
+		return string(b)
+	}
+	for i := 0; i < 6 && r.res.Viol == nil; i++ {
+		typ := []string{"Point", "MultiPoint", "LineString", "MultiLineString", "Polygon", "MultiPolygon"}[t.Choose(6, "skew-type")]
+		k := 1 + t.Choose(6000, "skew-k")
+		m := 1 + t.Choose(6000, "skew-m")
+		wrap := t.Choose(3, "skew-wrap")
+		var coords string
+		switch t.Choose(7, "skew-shape") {
+		case 0: // one long position then many empty ones
+			coords = "[" + num(k) + "," + rep("[]", m) + "]"
+		case 1: // many empty ones then a long one
+			coords = "[" + rep("[]", m) + "," + num(k) + "]"
+		case 2: // a valid position first, then many long/empty
+			coords = "[[1,2]," + rep("[]", m) + "," + num(k) + "]"
+		case 3: // long flat list
+			coords = num(k + m)
+		case 4: // many valid positions
+			coords = "[" + rep("[1,2]", k) + "]"
+		case 5: // many one-element members
+			coords = "[" + rep("[[1,2]]", m) + "]"
+		default: // long first ring of long positions
+			kk := 1 + k/50
+			coords = "[" + rep(num(kk), 1+m/50) + "]"
+		}
+		for w := 0; w < wrap; w++ {
+			coords = "[" + coords + "]"
+		}
+		doc := `{"type":"` + typ + `","coordinates":` + coords + `}`
+		if len(doc) > 65536 {
+			continue
+		}
+		r.jsonDecode("skewed-shape", []byte(doc), nil)
+	}
+	// deep singleton nesting
+	if r.res.Viol == nil {
+		d := 1 + t.Choose(12000, "skew-depth")
+		b := bytes.Repeat([]byte{'['}, d)
+		b = append(b, '1')
+		b = append(b, bytes.Repeat([]byte{']'}, d)...)
+		doc := `{"type":"MultiPolygon","coordinates":` + string(b) + `}`
+		if len(doc) <= 65536 {
+			r.jsonDecode("skewed-shape", []byte(doc), nil)
+		}
+	}
+	r.res.States = []uint64{uint64(core.NewHasher().Str("skewed").U64(r.log.Hash()))}
+}
+
 func (r *run) randomBytes() {
 	t := r.t
 	r.log.Event("item random byte strings")
@@ -1341,6 +1454,10 @@ func (r *run) randomBytes() {
 		r.wkbBytes("random-bytes", b, nil)
 		if r.res.Viol == nil && n <= 4096 {
 			r.jsonDecode("random-bytes", b, nil)
+		}
+		if r.res.Viol == nil && n <= 4096 {
+			r.hexString("random-bytes", string(b))
+			r.hexString("random-bytes", stdhex.EncodeToString(b))
 		}
 	}
 	r.res.States = []uint64{uint64(core.NewHasher().Str("random").U64(r.log.Hash()))}
